@@ -33,7 +33,9 @@ def evaluate(ctx, case):
     refpos, tgt, s = case["ref"]["pos"], case["tgt"], case["s"]
     n = len(refpos)
     anchors, nb = E.anchors_of(n, [tuple(b) for b in case["ref"]["bonds"]])
-    impl = E.run_impl(ctx, case)
+    impl = E.safe_run(ctx, case)
+    if impl is None:
+        return
     ctx.case(case, nontrivial=len(tgt) >= 2,
              sample={k: case.get(k) for k in ("cls", "s", "mode", "sigma", "moved")} | {"n_ref": n, "n_tgt": len(tgt)})
     ctx.count("cls:" + case["cls"])
@@ -70,7 +72,9 @@ def evaluate(ctx, case):
         new2[k] = [new2[k][i] + case["delta"][i] for i in range(3)]
         case2["newpos"] = new2
         case2["mode"] = "deform"
-        impl2 = E.run_impl(ctx, case2)
+        impl2 = E.safe_run(ctx, case2)
+        if impl2 is None:
+            return
         for j in range(len(tgt)):
             a = impl["equiv"][j]
             dep = {a, *sorted(nb[a])[:2]}
